@@ -65,7 +65,7 @@ BOUND = {
                 '12 targets x 3 extra coordinate dtypes; overwrite / reload histories up to 12 rounds; refusals on 12 targets',
 }
 _REQUIRED_QUICK = [
-    'roundtrip_ok', 'rows_1', 'rows_2_3', 'rows_long', 'target_sio', 'target_path_str', 'target_path_obj', 'target_fh',
+    'history_after_other_coord_dtype_ok', 'roundtrip_ok', 'rows_1', 'rows_2_3', 'rows_long', 'target_sio', 'target_path_str', 'target_path_obj', 'target_fh',
     'var_exact', 'var_off_by_ulps', 'value_subnormal', 'value_negzero', 'value_extreme',
     'header_default', 'header_empty', 'header_multiline', 'header_hash', 'header_numeric_looking',
     'coord_deduced_single', 'coord_deduced_dimcoord', 'coord_explicit', 'refused_ambiguous',
@@ -110,10 +110,15 @@ def cases(tier):
     for tgt in TARGETS:
         for n in (2, 3):
             out.append({'kind': 'windows', 'target': tgt, 'rows': n})
-    longs = [1000] + ([10000] if tier == 'thorough' else [])
+    # row counts around sizes at which a block-wise formatter would switch (multiples of 1024) besides the round numbers
+    longs = [1000, 1024, 2048] + ([4096, 8192, 10000, 65536] if tier == 'thorough' else [])
     for tgt in TARGETS:
         for n in longs:
             out.append({'kind': 'long', 'target': tgt, 'rows': n})
+    # call history: a table with an integer-typed (then a float32) coordinate is saved first, then ordinary float64 data
+    for tgt in TARGETS:
+        for first in ('int64', 'int32', 'float32'):
+            out.append({'kind': 'history', 'target': tgt, 'first_coord_dtype': first})
     # default header: units x coordinate names
     for cname in ('x', 'two words', 'a\nb', '#', '1 2 3', 'a\r7 8 9'):
         for cu in (None, 'one', 'angstrom', 'us'):
@@ -393,6 +398,20 @@ def _run(case, rec, tgt):
                 rec.nontrivial += 1
                 rec.cls('rows_1')
             _value_classes(rec, [y])
+    elif kind == 'history':
+        first = make_da([1.0, 2.0, 3.0], [0.5, 1.5, 2.5], [0.1, 0.2, 0.3])
+        first.coords['x'] = sc.array(dims=['x'], values=[1, 2, 3], unit='one', dtype=case['first_coord_dtype'])
+        rec.transitions += 1
+        try:
+            tgt.save(first)
+        except Exception:  # noqa: BLE001 - whether such a coordinate is accepted is not the point here
+            rec.cls('history_first_save_refused')
+        xs, ys, es = [2.047, 3.180125, 6.0923], [0.1, 1 / 3, -1.5], [0.3, 2.0, 1e-20]
+        da = make_da(xs, ys, es)
+        if judge_roundtrip(rec, case, tgt, da, xs, ys, es, header_kw={}, sub={'first_coord_dtype': case['first_coord_dtype']}):
+            rec.cls('history_after_other_coord_dtype_ok')
+        rec.states += 1
+        rec.nontrivial += 1
     elif kind in ('windows', 'long'):
         n = case['rows']
         period = len(CYC_V) * len(CYC_C) * len(CYC_E)
